@@ -313,6 +313,10 @@ def pick_end(rng, model, sid, boundary):
     c = [L - 1, L, L, L + 1, 2 * L, hi - 1, hi, hi + 1, hi + credit - 1, hi + credit, hi + credit, hi + credit + 1]
     if fin is not None:
         c += [fin - 1, fin, fin, fin + 1]
+    if hi > 1:
+        # far below what was already received: as a final size (RESET_STREAM) this must never *give back* connection
+        # credit; as a STREAM end it is a plain retransmission
+        c += [0, hi // 2]
     if boundary:
         c += [VARINT_MAX, VARINT_MAX - 1, L + rng.randrange(1, 5000), 1 << 40]
     else:
@@ -623,6 +627,15 @@ def run_history(pup, model, seed, case, max_len=200):
                 if _accepts(model, ops, cand):
                     op = cand
                     break
+                # ... plus RESET_STREAM frames whose final size lies below what was already received: R lets them pass
+                # (the property only speaks of sizes *beyond* a limit) but they must never hand back connection credit,
+                # which only shows if the history goes on to the connection limit afterwards
+                if cand["kind"] == "RESET_STREAM" and not ops and rng.random() < 0.7:
+                    v = model.classify(cand)
+                    if v.kind == "either" and "final-size-below-received" in v.tags:
+                        op = cand
+                        res.count("o1_benign_low_final_resets")
+                        break
             if op is None:
                 op = {"kind": "NOISE", "which": 0, "v": 0}
             room -= len(encode_op(op))
